@@ -70,6 +70,7 @@ type emptiness struct {
 // side: +1 store known empty, -1 known non-empty, 0 unknown on path p.
 func sideEmpty(p *Path, a *sketchAnchors, fld string) int {
 	st := 0
+	isRecvField := isSideStore
 	for _, cd := range p.Conds {
 		t := cd.Term
 		if isMethodCall(t, "IsEmpty") && len(t.Args) == 1 && isRecvField(t.Args[0], fld) {
@@ -175,7 +176,7 @@ func c12Extremes(c *Ctx, a *sketchAnchors) {
 				return false
 			}
 			x := t.Args[1]
-			return x.Op == "extract" && x.Sym == "0" && isMethodCall(x.Args[0], idx) && len(x.Args[0].Args) == 1 && isRecvField(x.Args[0].Args[0], fld)
+			return x.Op == "extract" && x.Sym == "0" && isMethodCall(x.Args[0], idx) && len(x.Args[0].Args) == 1 && isSideStore(x.Args[0].Args[0], fld)
 		}
 		for i, p := range paths {
 			n++
@@ -477,6 +478,11 @@ func c12ForEach(c *Ctx, a *sketchAnchors) {
 				}
 			}
 			ok = ok && called
+		} else if len(g.AnonFuncs) == 2 {
+			// the same sum written out over the two stores: on every path both stores are iterated, each once, the
+			// positive store with a closure adding Value(index)·count, the negative one with −Value(index)·count,
+			// neither ever stopping (the zero bucket contributes 0·zero: present or absent)
+			ok, found = c12SumWrittenOut(c, a, g)
 		} else {
 			found = fmt.Sprintf("%d closures", len(g.AnonFuncs))
 		}
@@ -730,4 +736,112 @@ func batchEquivalent(c *Ctx, a *sketchAnchors) (bool, string) {
 		return false, "no element store found in the batch query"
 	}
 	return true, fmt.Sprintf("%d element computations matched against %d single-query paths", nElems, len(sp))
+}
+
+// c12SumWrittenOut: GetSum without the sketch's ForEach — the two store iterations with accumulating closures.
+func c12SumWrittenOut(c *Ctx, a *sketchAnchors, g *ssa.Function) (bool, string) {
+	po, _ := exec(c, g, nil, 1)
+	if len(po) == 0 {
+		return false, "no path"
+	}
+	var posCl, negCl *ssa.Function
+	for _, p := range po {
+		nPos, nNeg := 0, 0
+		for _, e := range p.Effects {
+			if e.Kind != "call" || !isMethodCall(e.Call, "ForEach") || len(e.Call.Args) != 2 || e.Call.Args[1].Op != "closure" {
+				continue
+			}
+			mc, _ := e.Call.Args[1].V.(*ssa.MakeClosure)
+			if mc == nil {
+				continue
+			}
+			switch {
+			case isRecvField(e.Call.Args[0], a.posField):
+				nPos++
+				posCl = mc.Fn.(*ssa.Function)
+			case isRecvField(e.Call.Args[0], a.negField):
+				nNeg++
+				negCl = mc.Fn.(*ssa.Function)
+			}
+		}
+		if nPos != 1 || nNeg != 1 {
+			return false, fmt.Sprintf("a path iterates the positive store %d time(s) and the negative store %d time(s)", nPos, nNeg)
+		}
+		// the zero bucket may only add 0·zero
+		for _, e := range p.Effects {
+			if e.Kind == "store" && e.Val != nil && e.Val.isBin("+") {
+				okZ := false
+				for i := 0; i < 2; i++ {
+					y := e.Val.Args[1-i]
+					if y.isBin("*") && (y.Args[0].isConst("0") && isRecvField(y.Args[1], a.zeroField) || y.Args[1].isConst("0") && isRecvField(y.Args[0], a.zeroField)) {
+						okZ = true
+					}
+				}
+				if !okZ {
+					return false, "the sum receives something else than 0·zero outside the store iterations: " + e.String()
+				}
+			}
+		}
+	}
+	for _, side := range []struct {
+		cl  *ssa.Function
+		neg bool
+	}{{posCl, false}, {negCl, true}} {
+		if side.cl == nil {
+			return false, "a store is not iterated with a closure"
+		}
+		ps, _ := exec(c, side.cl, nil, 1)
+		if len(ps) == 0 {
+			return false, "closure without path"
+		}
+		for _, p := range ps {
+			if !p.RetT[0].isConst("false") {
+				return false, "accumulating callback may stop the iteration: " + describeRet(p)
+			}
+			acc := false
+			for _, e := range p.Effects {
+				if e.Kind != "store" || e.Addr.Op != "free" || !e.Val.isBin("+") {
+					continue
+				}
+				for i := 0; i < 2; i++ {
+					x, y := e.Val.Args[i], e.Val.Args[1-i]
+					if x.unver().Key() != e.Addr.Key() || !y.isBin("*") {
+						continue
+					}
+					for j := 0; j < 2; j++ {
+						v, cnt := y.Args[j], y.Args[1-j]
+						if !cnt.isParam(1) {
+							continue
+						}
+						if side.neg {
+							if v.Op != "un" || v.Sym != "-" {
+								continue
+							}
+							v = v.Args[0]
+						}
+						if isMethodCall(v, "Value") && len(v.Args) == 2 && isRecvField(v.Args[0], a.mapField) && v.Args[1].isParam(0) {
+							acc = true
+						}
+					}
+				}
+			}
+			if !acc {
+				sg := "Value(index)·count"
+				if side.neg {
+					sg = "−Value(index)·count"
+				}
+				return false, "a store callback does not add " + sg + " to the captured sum"
+			}
+		}
+	}
+	return true, "written out over both stores"
+}
+
+// isSideStore: the receiver's store field fld, also when it is seen through a type assertion to its concrete kind.
+func isSideStore(t *Term, fld string) bool {
+	t = t.unver()
+	if t != nil && t.Op == "extract" && t.Sym == "0" && len(t.Args) == 1 && t.Args[0].Op == "assert" && len(t.Args[0].Args) == 1 {
+		t = t.Args[0].Args[0]
+	}
+	return isRecvField(t, fld)
 }
